@@ -9,6 +9,7 @@ package main
 import (
 	"bytes"
 	"crypto/ed25519"
+	"encoding/hex"
 	"fmt"
 	"hash/crc32"
 	"math/rand"
@@ -75,7 +76,13 @@ func aliasOf(rnd *rand.Rand, id string) (alias, kind string) {
 			return string(pre), "long-name-same-first-120-bytes"
 		}
 	}
-	switch rnd.Intn(8) {
+	switch rnd.Intn(11) {
+	case 8:
+		return hex.EncodeToString([]byte(id)), "hex-form-of-the-stored-name"
+	case 9:
+		return strings.ToUpper(hex.EncodeToString([]byte(id))), "upper-case-hex-form-of-the-stored-name"
+	case 10:
+		return hex.EncodeToString([]byte(id)) + ".entity", "file-name-of-the-stored-name"
 	case 0:
 		return id + "\x00", "nul-appended"
 	case 1:
@@ -913,7 +920,7 @@ func main() {
 	r.Floor("verified_by_genuine_finish", int(r.Counter("verified_by_genuine_finish")), 50)
 	r.Floor("administrative_changes_between_messages", int(r.Counter("administrative_changes_between_messages")), 40)
 	r.Floor("finishes_naming_an_alias_of_a_stored_name", int(r.Counter("finishes_naming_an_alias_of_a_stored_name")), 150)
-	r.Floor("alias kinds", r.DistinctN("alias_kind"), 10)
+	r.Floor("alias kinds", r.DistinctN("alias_kind"), 12)
 	r.Floor("forged_finishes_refused+violations", int(r.Counter("forged_finishes_refused"))+r.ViolationCount(), 1000)
 	r.Finish()
 }
